@@ -39,6 +39,50 @@ NOTES = {
  'C18-attitude-sign-twice': ('two tables of different rates, denser one first, non-zero attitude difference', 'caught by C18 (antisymmetry and reference algebra) as first built'),
  'C18-resample-rph-column-order': ('attitude columns in a non-canonical relative order, evaluation off the original rows', 'caught by C18 (column-subset/permutation cases of resample) as first built'),
 }
+
+NOTES.update({
+ 'C19-integrator-ctor-mutates-pva-2d': ('2D mode, non-zero VD, caller inspects the Series it passed', 'caught by C19 as built'),
+ 'C19-seed-zero-is-no-seed': ('integer seed exactly 0', 'initially missed (no seed 0 in the catalogue); caught after seed-0 forms were added'),
+ 'C02-2d-altitude-pinned-to-row0': ('2D: integrate -> set_pva(new altitude) -> integrate', 'caught by C02 and C13 as built'),
+ 'C02-heading-unwrapped-per-chunk': ('heading crossing +-180 deg strictly inside a multi-row integrate call', 'caught by C02 as built'),
+ 'C09-innovation-index-from-data-head': ('a sensor with a sample before the start (or unsorted data)', 'caught by C09 as built (stamps compared)'),
+ 'C09-epochs-merged-to-microsecond': ('two distinct time stamps that agree to a microsecond', 'initially missed; caught after twin slots (2^-22 s later) were added to the E2 alphabet'),
+ 'C10-start-epoch-sample-dropped': ('a sample stamped exactly at the first trajectory row', 'caught by C10 as built'),
+ 'C10-measurement-cursor-not-reset': ('re-use of the same measurement object in a second filter call (or unsorted data)', 'C12 caught it at once; C10/C09 missed it (fresh objects per run) until second-run cases were added; C19 and C06 now catch it too'),
+ 'C13-predict-loses-2d-flag': ('predict() in 2D mode', 'C02 caught it at once; C13 missed it until predicted rows were asserted like produced rows'),
+ 'C13-position-update-unpinned-vd': ('net vertical acceleration in 2D mode', 'caught by C13 as built'),
+ 'C11-increments-window-left-inclusive': ('increments passed and scale/misalignment states enabled', 'caught by C11 as built'),
+ 'C11-next-sample-measurement-early': ('a measurement stamped exactly on the trajectory row after a filter epoch', 'caught by C11 and C10 as built'),
+ 'C06-time-lookup-isclose': ('a query time a microsecond beside a sample / large time stamps', 'initially missed; caught after near-miss absent times and a seconds-of-week table were added'),
+ 'C06-jacobian-buffers-on-instance': ('lever-arm Position followed by an arm-less Position on the same InsErrorModel', 'initially missed; caught after one error model per mode served all sources of a case'),
+ 'C14-walk-sqrt-dt-outside-cumsum': ('bias walk with non-uniform sampling', 'caught by C14 (impulse gains) as built'),
+ 'C14-update-bias-by-position': ('enabled bias axes that are not a prefix of x,y,z', 'caught by C14 as built'),
+ 'C18-resample-snaps-with-isclose': ('requested times very close to (not at) original stamps / large time base', 'initially missed; caught after near-knot queries, a 2^-11 s shift and a seconds-of-week base were added'),
+ 'C18-to180-fmod': ('a negative odd multiple of 180', 'caught by C18 as built'),
+ 'C12-fb-window-starts-at-first-increment': ('a measurement inside the first IMU interval / at the initial time', 'C09 caught it at once; C12 missed it until the mix with a fix AT the initial time was added'),
+ 'C12-ff-increments-batch-closed-slice': ('scale/misalignment state and increments passed to the feedforward filter', 'caught by C12 and C11 as built'),
+ 'C04-transport-rate-twice-alias': ('high ground speed at high latitude (rho comparable with Omega)', 'initially missed: the a-priori slack on DV<-DV was as large as the seeded error; slack removed (block is exact at first order)'),
+ 'C04-bgyro-dv-operand-order': ('gyro error acting while the vehicle moves', 'caught by C04 as built'),
+ 'C01-tiny-rotation-identity': ('sampling interval near 1 ms (per-step frame rotation below 1e-7 rad)', 'caught by C01 as built (convergence check on the decimal ladder)'),
+ 'C01-dt-rounded-to-microseconds': ('a sampling interval that is not a whole number of microseconds (1/128 s)', 'initially missed in quick (decimal ladder); caught after the dyadic ladder 1/32..1/512 s was put on every second lattice point'),
+ 'C03-accel-increment-bd-sign': ('increment type with angular acceleration not parallel to specific force', 'initially missed: the error is O(dt^2) per unit time, inside the interpolation error of the rate readings; caught after the order relation (accel increments one order better than rate readings when velocity is supplied) was derived and asserted'),
+ 'C03-position-only-wrong-frame-matrix': ('position-only input form with non-zero velocity and non-trivial time', 'caught by C03 as built'),
+ 'C05-position-to-attitude-coupling': ('large position correction / high latitude', 'caught by C05 (correction vs written-out convention) as built'),
+ 'C05-mat-to-rph-roll-quadrant': ('|roll| > 90 deg', 'caught by C05 and C17 as built'),
+ 'C07-overwritten-HP-buffer': ('n_obs == 1 or n_states == 1', 'caught by C07 as built'),
+ 'C07-residual-aliases-z': ('prior mean exactly zero and z a contiguous float array', 'caught by C07 (input snapshots) as built'),
+ 'C08-tiny-Q-treated-as-zero': ('all entries of Q below 1e-8', 'initially missed (Q of order 1 and 1e-6); caught after a 1e-12 noise scale was added'),
+ 'C08-diagonal-F-geometric-mean': ('diagonal F with different entries and correlated Q', 'caught by C08 (composition law) as built'),
+ 'C15-increment-sculling-index-slip': ('increment type, specific force changing between samples while rotating', 'caught by C15 as built'),
+ 'C15-positional-column-extraction': ('Imu table with non-canonical column order or an extra leading column', 'initially missed; caught after column layouts (accel first, extra leading column, interleaved) were added; C01 shuffles the increments layout too'),
+ 'C16-ecef-to-lla-high-latitude-branch': ('latitude above ~56.8 deg', 'caught by C16 as built'),
+ 'C16-perturb-lla-in-place': ('lla passed as a writable float ndarray', 'caught by C16 and C19 as built'),
+ 'C17-zero-rotation-stale-offdiagonals': ('rotation vector exactly zero with a reused output buffer', 'caught by C17 as built (norm 0 is in the alphabet and the buffer is reused)'),
+ 'C17-mat-from-rph-memo-aliases-caller': ('the same float array passed in consecutive single calls, rewritten in place', 'initially missed (fresh lists per call); caught after a caller-owned work array loop was added'),
+ 'C19-stale-fir-filter-cache': ('two smoothing calls whose parameters collide in the filter length but not in the cut-off', 'initially missed twice: first no colliding parameters in the catalogue, then the in-process baseline primed the cache itself; caught after first calls of g in "after f" processes were compared with first calls in pristine processes'),
+ 'C19-work-array-dtype-follows-F': ('integer-typed F with fractional Q', 'C08 caught it at once; C19 missed it until integer-valued argument forms were added'),
+})
+
 base = '/verif/seeded'
 for d in sorted(os.listdir(base)):
     p = os.path.join(base, d, 'meta.json')
